@@ -115,6 +115,10 @@ def rule_load_dispatch(ctx):
 
 
 def run(ctx):
+    from ..rules import round5 as _R5b
+    _R5b.rule_statement_order_siblings(ctx)
+    from ..rules import round5 as _R5
+    _R5.rule_number_patterns_quantified(ctx, ['partitura.io.importkern', 'partitura.io.importmei'])
     from ..rules import extra as _X3
     _X3.rule_shared_divisions_lcm(ctx)
     rule_tables(ctx)
